@@ -510,3 +510,82 @@ def rule_func_from_sig(check, rule):
         else:
             check.holds(rule, st, 'func_from_sig hands f() the parameter list and the return annotation from the right pieces of %s()' % meth, key=key)
     check.floor(rule, 'returning paths of func_from_sig', n, 1)
+
+
+def rule_read_sig_insertion_index(check, rule):
+    """C20.R8: under `use_modifiers_kwoargs` read_sig keeps required keyword-only parameters ahead of defaulted ones by inserting them
+    at a remembered index into `params`.  When that index is obtained by *counting* (from the loop index over the comma-separated
+    text, or from len(params)), it has to take the star entry into account: the text has one entry for `*args` / `*`, while
+    `params` holds the named `*args` but not the bare `*` -- so neither count is right on its own, and the assignment must depend
+    (in its value or in the branch it sits under) on whether a star has been seen / sits at the end of `params`.  An index
+    computed another way (looked up with .index(), say) is not judged."""
+    repo = check.repo
+    fi = repo.func(SUP + ':read_sig')
+    check.analysed(fi)
+    loop = None
+    for n in fi.node.body:
+        if isinstance(n, ast.For):
+            loop = n
+    key = 'read_sig|insertion-index'
+    if loop is None:
+        check.inconclusive(rule, site_of(fi, fi.node), 'read_sig: the loop over the comma-separated parameters was not found', key=key)
+        return
+    # the index variable: first argument of <list>.insert(<name>, ...)
+    idx_names = set()
+    lists = set()
+    for c in ast.walk(loop):
+        if isinstance(c, ast.Call) and isinstance(c.func, ast.Attribute) and c.func.attr == 'insert' and len(c.args) == 2 and isinstance(c.args[0], ast.Name):
+            idx_names.add(c.args[0].id)
+            lists.add(norm(c.func.value))
+    if not idx_names:
+        check.holds(rule, site_of(fi, loop), 'read_sig inserts at no remembered index', key=key, nontrivial=False)
+        return
+    # facts about stars: names bound inside a branch whose test looks at a leading '*', and such tests themselves
+    star_names = set()
+    for n in ast.walk(loop):
+        if isinstance(n, ast.If) and "startswith('*" in norm(n.test):
+            for s_ in n.body:
+                for x in ast.walk(s_):
+                    if isinstance(x, ast.Name) and isinstance(x.ctx, ast.Store):
+                        star_names.add(x.id)
+    loop_idx = set(x.id for x in ast.walk(loop.target) if isinstance(x, ast.Name))
+    n_sites = 0
+    for a in ast.walk(loop):
+        if not (isinstance(a, ast.Assign) and len(a.targets) == 1 and isinstance(a.targets[0], ast.Name) and a.targets[0].id in idx_names):
+            continue
+        v = a.value
+        if isinstance(v, ast.Constant):
+            continue
+        names = set(x.id for x in ast.walk(v) if isinstance(x, ast.Name))
+        calls = [c for c in ast.walk(v) if isinstance(c, ast.Call)]
+        counting = all(isinstance(c.func, ast.Name) and c.func.id == 'len' for c in calls) and \
+            names <= (loop_idx | set(['len']) | set(l for l in lists if '.' not in l) | star_names)
+        if not counting:
+            continue
+        n_sites += 1
+        # control dependence: enclosing tests inside the loop
+        tests = []
+        t = a
+        while getattr(t, '_parent', None) is not None and t is not loop:
+            par = t._parent
+            if isinstance(par, ast.If):
+                tests.append(par.test)
+            elif isinstance(par, ast.IfExp):
+                tests.append(par.test)
+            t = par
+        dep_names = set(names)
+        dep_txt = norm(v)
+        for tt in tests:
+            dep_names |= set(x.id for x in ast.walk(tt) if isinstance(x, ast.Name))
+            dep_txt += ' ' + norm(tt)
+        star_aware = bool(dep_names & star_names) or "startswith('*" in dep_txt
+        st = site_of(fi, a)
+        if star_aware:
+            check.holds(rule, st, 'the remembered insertion index %s = %s takes the star entry into account' % (a.targets[0].id, norm(v)[:40]), key=key)
+        else:
+            check.violation(rule, st, 'the insertion index is counted as %s, whatever stars came before: the comma-separated text has an entry for the '
+                            'star, `params` holds a named *args but not a bare *, so after a named *args a required keyword-only parameter is '
+                            'inserted behind the defaulted one' % norm(v)[:40], key=key,
+                            witness="s('a, *args, b=1, c', use_modifiers_kwoargs=True) generates def func(a, b=1, c, *args): SyntaxError")
+    if not n_sites:
+        check.holds(rule, site_of(fi, loop), 'the insertion index is not obtained by counting (not judged)', key=key, nontrivial=False)
